@@ -116,6 +116,9 @@ def run(ctx):
         from ..rules import extra
         nd = extra.check_no_downgrade(ck, prog, config, 'C12-d')
         ck.min_instances('callers of write_data', nd, 5)
+        # ---- e  a retried write continues where the previous one stopped
+        from ..rules import contwrite
+        contwrite.check_write_continuation(ck, prog, config, 'C12-e')
         ck.extra.setdefault('inferred_conventions', {}).update(convs.inferred)
         n_units, hits = unused_result_witness(config)
         for f, line, text in hits:
@@ -127,6 +130,56 @@ def run(ctx):
 
 
 MUTANTS = [
+    {'id': 'm12w', 'desc': 'write retry loop that never advances the source (seeded c12r3/c01r3)', 'file': 'src/lib/io.c',
+     'old': """    } else if(write_bytes < length) {
+        // According to man page, if write is less than full amount, we should try again
+        length -= write_bytes;
+        write_bytes = write(fd, data+write_bytes, length);
+        if(write_bytes == -1) {
+            set_fatal_error(zck, "Error writing data: %s", strerror(errno));
+            return false;
+        } else if(write_bytes < length) {
+            set_fatal_error(zck, "Short write (after two attempts)");
+            return false;
+        }
+    }""", 'new': """    }
+    while(write_bytes < length) {
+        length -= write_bytes;
+        write_bytes = write(fd, data+write_bytes, length);
+        if(write_bytes == -1) {
+            set_fatal_error(zck, "Error writing data: %s", strerror(errno));
+            return false;
+        }
+    }""", 'expect': 'R4.continuation write_data'},
+    {'id': 'n12w', 'desc': 'correct write retry loop (source advanced by every result)', 'file': 'src/lib/io.c',
+     'old': """    } else if(write_bytes < length) {
+        // According to man page, if write is less than full amount, we should try again
+        length -= write_bytes;
+        write_bytes = write(fd, data+write_bytes, length);
+        if(write_bytes == -1) {
+            set_fatal_error(zck, "Error writing data: %s", strerror(errno));
+            return false;
+        } else if(write_bytes < length) {
+            set_fatal_error(zck, "Short write (after two attempts)");
+            return false;
+        }
+    }""", 'new': """    }
+    while(write_bytes < length) {
+        if(write_bytes == 0) {
+            set_fatal_error(zck, "Short write");
+            return false;
+        }
+        data += write_bytes;
+        length -= write_bytes;
+        write_bytes = write(fd, data, length);
+        if(write_bytes == -1) {
+            set_fatal_error(zck, "Error writing data: %s", strerror(errno));
+            return false;
+        }
+    }""", 'expect': None},
+    {'id': 'm12x', 'desc': 'retry passes the full length again', 'file': 'src/lib/io.c',
+     'old': '        length -= write_bytes;\n        write_bytes = write(fd, data+write_bytes, length);',
+     'new': '        write_bytes = write(fd, data+write_bytes, length);', 'expect': 'R4.continuation write_data'},
     {'id': 'm27', 'desc': 'dl_write ignores the write_data result', 'file': 'src/lib/dl/dl.c',
      'old': """        if(!write_data(dl->zck, dl->zck->fd, at, wb))
             return -1;""",
